@@ -3,7 +3,8 @@ import MalVerif.Py.TieLegacyBase
 # Tie of the translated 0.0.39 loader: the attacker loop
 
 `attacker_sim`: one round of the loop over `attackers` of the translated `updater_process_model`
-(`attackerBody`) is one `Ser.loadAttacker` of the hand model.
+(`attackerBody`) is one `Ser.loadAttacker` of the hand model; when it raises, the hand model rejects with an error that
+agrees with the exception (`OldErrAgree`; `EpErr`).
 -/
 namespace MalVerif.PyLeg.Tie
 open MalVerif MalVerif.PyM MalVerif.PyM.Gen MalVerif.PyM.Tie MalVerif.PyLeg MalVerif.PyLeg.Gen MalVerif.Legacy
@@ -178,20 +179,31 @@ theorem epBody_some (env : ModelEnv) (atts : List (Key × Ser.AttackerEntry)) (h
       subst hv
       rfl
 
+/-- the exceptions of one entry point: `ValueError` (`int(asset_id)` of a string that is not a number), or
+`unmodelled` (no asset has that id: Python stores the tuple `(None, steps)` and does not raise) -/
+def EpErr (e : LErr) : Prop := e = .py .valueError ∨ e = .unmodelled
+
+/-- the hand model answers `lookupError` to both … -/
+theorem EpErr.agree_lookup {e : LErr} (h : EpErr e) : OldErrAgree e .lookupError := by
+  rcases h with h | h <;> subst h <;> decide
+/-- … unless the key of the attacker itself is not a number, which it looks at first -/
+theorem EpErr.agree_value {e : LErr} (h : EpErr e) : OldErrAgree e .valueError := by
+  rcases h with h | h <;> subst h <;> decide
+
 theorem epBody_none (env : ModelEnv) (atts : List (Key × Ser.AttackerEntry)) (hnd : (atts.map (·.1)).Nodup)
     (a : Key × Ser.AttackerEntry) (ha : a ∈ atts) (hnd2 : (a.2.entry.map (·.1)).Nodup)
     (p : Key × List String) (hp : p ∈ a.2.entry) (s h : H) (nm : String) (hm : Mid s nm h)
     (hv : epRes (abs s) p = none) :
-    ∃ er, epBody env (infoOf atts) (keyJ a.1) s.tfresh (keyJ p.1) h = .error er := by
+    ∃ er, epBody env (infoOf atts) (keyJ a.1) s.tfresh (keyJ p.1) h = .error er ∧ EpErr er := by
   rw [epBody_eq env atts hnd a ha hnd2 s.tfresh p hp h]
   unfold epRes at hv
   cases hi : p.1.toInt? with
-  | none => rw [jInt_keyJ_none _ hi]; exact ⟨_, rfl⟩
+  | none => rw [jInt_keyJ_none _ hi]; exact ⟨_, rfl, Or.inl rfl⟩
   | some i =>
     rw [hi] at hv
     rw [jInt_keyJ_some _ _ hi, ok_bind, hm.getAsset env i]
     cases hg : MS.getAssetById (abs s) i with
-    | none => exact ⟨_, rfl⟩
+    | none => exact ⟨_, rfl, Or.inr rfl⟩
     | some r => rw [Option.bind_some, hg] at hv; cases hv
 
 /-! ### the inner loop -/
@@ -203,7 +215,7 @@ theorem ep_loop (env : ModelEnv) (atts : List (Key × Ser.AttackerEntry)) (hnd :
         ∃ eps, ps.mapM (epRes (abs s)) = some eps ∧ Mid s nm h' ∧
           (h'.t s.tfresh).entry_points.map (epVal h') = (h.t s.tfresh).entry_points.map (epVal h) ++ eps) ∧
       (∀ er, forIn (ps.map (fun p => keyJ p.1)) h (epBody env (infoOf atts) (keyJ a.1) s.tfresh) = .error er →
-        ps.mapM (epRes (abs s)) = none) := by
+        ps.mapM (epRes (abs s)) = none ∧ EpErr er) := by
   intro ps
   induction ps with
   | nil =>
@@ -222,11 +234,14 @@ theorem ep_loop (env : ModelEnv) (atts : List (Key × Ser.AttackerEntry)) (hnd :
     rw [List.map_cons, List.mapM_cons]
     cases hv : epRes (abs s) p with
     | none =>
-      obtain ⟨er, her⟩ := epBody_none env atts hnd a ha hnd2 p hp s h nm hm hv
+      obtain ⟨er, her, hee⟩ := epBody_none env atts hnd a ha hnd2 p hp s h nm hm hv
       rw [forIn_cons_err _ _ _ _ _ her]
       refine ⟨?_, ?_⟩
       · intro h' hr; cases hr
-      · intro _ _; rfl
+      · intro er' hr
+        injection hr with hr
+        subst hr
+        exact ⟨rfl, hee⟩
     | some v =>
       have hst := epBody_some env atts hnd a ha hnd2 p hp s h nm hm v hv
       rw [forIn_cons_ok _ _ _ _ _ hst]
@@ -239,7 +254,8 @@ theorem ep_loop (env : ModelEnv) (atts : List (Key × Ser.AttackerEntry)) (hnd :
         · rw [hmap]; rfl
         · rw [he', he1, List.append_assoc]; rfl
       · intro er hr
-        rw [iherr er hr]; rfl
+        obtain ⟨hn, hee⟩ := iherr er hr
+        rw [hn]; exact ⟨rfl, hee⟩
 
 /-! ### the round -/
 
@@ -254,6 +270,19 @@ theorem attackerBody_eq (env : ModelEnv) (atts : List (Key × Ser.AttackerEntry)
   have hnew : newAttachment s (.str a.2.name) = .ok (newAttObj s { name := some a.2.name }, s.tfresh) := rfl
   simp only [bind, Except.bind, pure, Except.pure, info_index atts hnd a ha, encAttacker_eps, encAttacker_name,
     epDict_iter, hnew]
+  rfl
+
+/-- the asset id of the first entry point is a string that is not a number: `int(asset_id)` raises `ValueError`
+(the one-fault disagreement of this loop: `Ser.loadAttacker` says `lookupError`) -/
+theorem attackerBody_ep_not_int (env : ModelEnv) (atts : List (Key × Ser.AttackerEntry)) (hnd : (atts.map (·.1)).Nodup)
+    (a : Key × Ser.AttackerEntry) (ha : a ∈ atts) (hnd2 : (a.2.entry.map (·.1)).Nodup)
+    (p : Key × List String) (ps : List (Key × List String)) (hentry : a.2.entry = p :: ps) (hk : p.1.toInt? = none)
+    (s : H) : attackerBody env (infoOf atts) (keyJ a.1) s = .error (.py .valueError) := by
+  rw [attackerBody_eq env atts hnd a ha s]
+  have hp : p ∈ a.2.entry := by rw [hentry]; exact List.mem_cons_self
+  have h1 : epBody env (infoOf atts) (keyJ a.1) s.tfresh (keyJ p.1) (startH s a.2.name) = .error (.py .valueError) := by
+    rw [epBody_eq env atts hnd a ha hnd2 s.tfresh p hp, jInt_keyJ_none _ hk]; rfl
+  rw [hentry, List.map_cons, forIn_cons_err _ _ _ _ _ h1]
   rfl
 
 theorem final_abs (s h : H) (nm : String) (hm : Mid s nm h) (hE : EpFresh s) (id : Int)
@@ -334,17 +363,26 @@ theorem attacker_sim (env : ModelEnv) (atts : List (Key × Ser.AttackerEntry)) (
     obtain ⟨hloop, hloopE⟩ :=
       ep_loop env atts hnd a ha hnd2 s a.2.name a.2.entry (fun _ hp => hp) _ (Mid.start s a.2.name)
     unfold Ser.loadAttacker
-    cases hk : a.1.toInt? with
-    | none => exact ⟨_, rfl⟩
-    | some i =>
-      cases hfor : forIn (a.2.entry.map (fun p => keyJ p.1)) (startH s a.2.name)
-          (epBody env (infoOf atts) (keyJ a.1) s.tfresh) with
-      | error er =>
+    cases hfor : forIn (a.2.entry.map (fun p => keyJ p.1)) (startH s a.2.name)
+        (epBody env (infoOf atts) (keyJ a.1) s.tfresh) with
+    | error er =>
+      obtain ⟨hmap, hee⟩ := hloopE er hfor
+      rw [hfor] at hb
+      cases hb
+      cases hk : a.1.toInt? with
+      | none => exact ⟨.valueError, rfl, hee.agree_value⟩
+      | some i =>
         have hmap' : a.2.entry.mapM (fun p => (p.1.toInt?.bind (MS.getAssetById (abs s))).map (fun a => (a, p.2))) =
-            none := hloopE er hfor
+            none := hmap
         simp only [hmap']
-        exact ⟨_, rfl⟩
-      | ok h' =>
+        exact ⟨.lookupError, rfl, hee.agree_lookup⟩
+    | ok h' =>
+      cases hk : a.1.toInt? with
+      | none =>
+        rw [hfor, ok_bind, jInt_keyJ_none _ hk] at hb
+        cases hb
+        exact ⟨.valueError, rfl, by decide⟩
+      | some i =>
         rw [hfor, ok_bind, jInt_keyJ_some _ _ hk, ok_bind] at hb
         cases hb
 
